@@ -699,8 +699,12 @@ rc::Gen<Case> gen_nanrank() {
 // checked exactly as for short streams, in 64-bit (128-bit for the sums).
 template <typename Sk> void huge_one(Sk sk, const Case& cs, const char* fam) {
   vf::Rng r(static_cast<uint64_t>(cs.get("seed", 1)) * 77 + 5);
-  const uint64_t m = 1 + static_cast<uint64_t>(cs.get("m", 1)) % 3000;
-  const int d = static_cast<int>(cs.get("d", 0) % 36);
+  // "bigk": the largest legal k of the family, with a stream that just crosses the first flush / compaction of the lowest buffer
+  const bool bigk = (cs.get("bigk", 0) & 1) != 0;
+  const uint64_t k0 = sk.get_k();
+  const uint64_t m = !bigk ? 1 + static_cast<uint64_t>(cs.get("m", 1)) % 3000
+                           : (fam[0] == 'c' ? 2 * k0 : fam[0] == 'k' ? k0 : 6 * k0) - 4 + static_cast<uint64_t>(cs.get("m", 1)) % 6000;
+  const int d = static_cast<int>(cs.get("d", 0) % (bigk ? 3 : 36));
   const int via = static_cast<int>(cs.get("via", 0) % 3);
   std::vector<int64_t> base;
   for (uint64_t i = 0; i < m; ++i) { const int64_t v = static_cast<int64_t>(r.below(2 * m + 1)) - static_cast<int64_t>(m); base.push_back(v); sk.update(v); }
@@ -780,13 +784,15 @@ template <typename Sk> void huge_one(Sk sk, const Case& cs, const char* fam) {
   }
   vf::label(std::string("fam:") + fam);
   vf::label(n >= (1ull << 40) ? "n>=2^40" : n >= (1ull << 32) ? "n>=2^32" : n >= (1ull << 24) ? "n>=2^24" : "n<2^24");
-  if (n >= (1ull << 32)) vf::nontrivial();
+  if (n >= (1ull << 32) || bigk) vf::nontrivial();
 }
 void prop_huge(const Case& cs) {
   ChecksFlush f;
   vf::own_randomness(static_cast<uint64_t>(cs.get("seed", 1)));
   const int fam = static_cast<int>(((cs.get("fam", 0) % 3) + 3) % 3);
-  const uint16_t k = k_from(fam, static_cast<uint64_t>(cs.get("k0", 0)));
+  const bool bigk = (cs.get("bigk", 0) & 1) != 0;
+  const uint16_t k = bigk ? (fam == F_KLL ? 65535 : fam == F_REQ ? 1024 : 32768) : k_from(fam, static_cast<uint64_t>(cs.get("k0", 0)));
+  if (bigk) vf::label("huge_n:largest-legal-k");
   if (fam == F_KLL) huge_one(kll_sketch<int64_t>(k), cs, "kll");
   else if (fam == F_REQ) huge_one(req_sketch<int64_t>(k, cs.get("hra", 1) & 1), cs, (cs.get("hra", 1) & 1) ? "req-hra" : "req-lra");
   else huge_one(quantiles_sketch<int64_t>(k), cs, "classic");
@@ -794,7 +800,7 @@ void prop_huge(const Case& cs) {
 rc::Gen<Case> gen_huge() {
   using namespace vf;
   return make_case({{"fam", range(0, 2)}, {"seed", range(1, 1 << 30)}, {"hra", range(0, 1)}, {"k0", range(0, 15)}, {"m", range(0, 2999)},
-                    {"d", rc::gen::weightedOneOf<int64_t>({{1, range(0, 15)}, {3, range(16, 35)}})}, {"via", range(0, 2)}}, rc::gen::just(std::vector<Op>{}));
+                    {"d", rc::gen::weightedOneOf<int64_t>({{1, range(0, 15)}, {3, range(16, 35)}})}, {"via", range(0, 2)}, {"bigk", rc::gen::weightedOneOf<int64_t>({{12, rc::gen::just<int64_t>(0)}, {1, rc::gen::just<int64_t>(1)}})}}, rc::gen::just(std::vector<Op>{}));
 }
 
 // ------------------------------------------------------------------ generators
